@@ -253,7 +253,8 @@ class NDNApp:
 
     async def _wait_for_data(self, future: aio.Future, lifetime: int, node_name: FormalName,
                              node: InterestTreeNode, validator: Validator, need_raw_packet: bool):
-        lifetime = 100 if lifetime is None else lifetime
+        # An Interest without InterestLifetime has the default lifetime of 4 seconds
+        lifetime = 4000 if lifetime is None else lifetime
         try:
             data_name, meta_info, content, sig, raw_packet = await aio.wait_for(future, timeout=lifetime/1000.0)
         except TimeoutError:
